@@ -135,7 +135,14 @@ for i in range(30 * SCALE):
     kskpol = ksrxml.default_zsk_policy(**{k: rand_dur() for k in ("publish_safety", "retire_safety", "max_validity", "min_validity", "max_overlap", "min_overlap")},
                                        algs=[("RSA", 8, 1024, 65537)] + ([("RSA", 10, 1024, 65537)] if any(schema[j]["sign"] == ["ksk_512"] for j in schema) else []))
     skr = skrgen.simulate_skr(rq, schema, KS, kskpol)
-    resp = skrgen.k_response(skr)
+    rk = vlib.run_impl(skrgen.k_response, skr)
+    if rk[0] != "ok":
+        # the data classes refuse a response the signer can produce (e.g. a bundle with a revoked KSK): it could then not be read back either
+        fail("construct", f"a response the signer can produce is refused by the SKR data classes: {rk[2]}", None,
+             {"schemas": [sorted(schema[j]["sign"]) + ["revoke:" + ",".join(schema[j]["revoke"])] for j in schema], "reference_document": ksrxml.render_skr(skr)[:6000]})
+        count("emitted-skr")
+        continue
+    resp = rk[1]
     r = vlib.run_impl(skr_to_xml, resp)
     n_skr += 1
     count("emitted-skr")
